@@ -132,7 +132,8 @@ func mbcCarts(c *Ctx, forRAM bool) []cartSpec {
 		return quick
 	}
 	if forRAM {
-		add("none", 0x00, []int{0}, []int{0}, false)
+		// a ROM-only cartridge whose image is larger than the two pages it can show still has nothing behind A000-BFFF
+		add("none", 0x00, []int{0, 1, 2}, []int{0}, false)
 		add("mbc1", 0x03, pick([]int{0, 3, 6}, []int{2}), pick([]int{0, 1, 2, 3}, []int{0, 3}), false)
 		add("mbc1", 0x02, []int{1}, pick([]int{2, 3}, []int{2}), false)
 		add("mbc2", 0x06, pick([]int{0, 3}, []int{1}), []int{0}, false)
@@ -143,7 +144,7 @@ func mbcCarts(c *Ctx, forRAM bool) []cartSpec {
 		add("mbc5", 0x1e, []int{1}, pick([]int{3, 5}, []int{5}), false)
 		return out
 	}
-	add("none", 0x00, []int{0}, []int{0}, false)
+	add("none", 0x00, []int{0, 2}, []int{0}, false)
 	add("mbc1", 0x01, pick([]int{0, 1, 2, 3, 4, 5, 6}, []int{0, 3, 6}), []int{0}, false)
 	add("mbc1", 0x03, pick([]int{2, 5}, []int{4}), []int{3}, false)
 	add("mbc2", 0x05, pick([]int{0, 1, 2, 3}, []int{0, 3}), []int{0}, false)
